@@ -74,6 +74,9 @@ class Content(Tag):
             peeked, (TagToken, OutputToken, CommentToken, RawToken, LinesToken)
         ):
             right_trim = peeked.wc[0]
+        elif isinstance(peeked, ContentToken):
+            # More text, not markup. There is nothing to trim between the two.
+            right_trim = WhitespaceControl.PLUS
 
         return self.node_class(
             token,
